@@ -10,6 +10,7 @@
 #include <vector>
 
 #include "romea_core_common/diagnostic/CheckupRate.hpp"
+#include <memory>
 #include "romea_core_common/monitoring/RateMonitoring.hpp"
 
 using romea::core::CheckupEqualToRate;
@@ -287,10 +288,14 @@ void history(vf::Ctx & c)
         }
     }
   }
+  // value semantics of the monitor (its copy constructor is hand written): before one event of the history the
+  // monitor is replaced by a copy of itself; -1 = never
+  const int copyAt = c.s.flag("monitor_continued_on_a_copy", 1, 3) ? static_cast<int>(c.s.i("copy_before_event", 0, std::max<int>(0, static_cast<int>(evs.size()) - 1))) : -1;
+  if (copyAt >= 0) {c.label("monitor-continued-on-a-copy");}
   c.commit();
 
   // ------------------------------------------------ execution against the event-list model ----------------------
-  RateMonitoring mon(cfg.rate);
+  std::unique_ptr<RateMonitoring> monHolder(new RateMonitoring(cfg.rate));
   CheckupEqualToRate ce(cfg.name, cfg.rate, cfg.eps);
   CheckupGreaterThanRate cg(cfg.name, cfg.rate, cfg.eps);
 
@@ -298,7 +303,7 @@ void history(vf::Ctx & c)
   double mRate = 0.0;          // model rate
   bool mZero = true;           // model rate is the literal 0
   ModelState state = NODATA;
-  double libRatePrev = mon.getRate();
+  double libRatePrev = monHolder->getRate();
   c.check(libRatePrev == 0.0, vf::fmt("rate %.17g before any stamp, expected 0", libRatePrev));
   Snapshot prevE = snapshot(c, ce.getReport(), cfg, "initial(equal-to)");
   Snapshot prevG = snapshot(c, cg.getReport(), cfg, "initial(greater-than)");
@@ -314,6 +319,10 @@ void history(vf::Ctx & c)
   for (const Ev & e : evs) {
     const std::string w = vf::fmt("event#%d(%s t=%lld)", idx++, e.data ? "stamp" : "heartbeat", e.t);
     const Duration d(e.t);
+    if (idx - 1 == copyAt) {
+      std::unique_ptr<RateMonitoring> copy(new RateMonitoring(*monHolder));
+      monHolder = std::move(copy);
+    }
     if (e.data) {
       c.check(stamps.empty() || e.t > stamps.back(), w + ": generator produced a non-increasing stamp");
       stamps.push_back(e.t);
@@ -330,8 +339,8 @@ void history(vf::Ctx & c)
         if (sawTimeout) {recovered = true;}
       }
       if (sawTimeout) {stampAfterTimeout = true;}
-      const double ret = mon.update(d);
-      const double got = mon.getRate();
+      const double ret = monHolder->update(d);
+      const double got = monHolder->getRate();
       c.check(ret == got, vf::fmt("%s: update returned %.17g but getRate() is %.17g", w.c_str(), ret, got));
       if (mZero) {
         c.check(got == 0.0, vf::fmt("%s: rate %.17g after %lld stamps with window %lld, expected 0 (window not full)", w.c_str(), got, k, cfg.W));
@@ -363,11 +372,11 @@ void history(vf::Ctx & c)
         if (gap == NS_HALF + 1) {gapAbove = true;}
         if (gap == NS_HALF - 1) {gapBelow = true;}
       }
-      const bool to = mon.timeout(d);
+      const bool to = monHolder->timeout(d);
       c.check(to == expectTimeout,
         vf::fmt("%s: timeout() returned %d, expected %d (stamps so far %zu, silence %lld ns)", w.c_str(), to, expectTimeout,
         stamps.size(), stamps.empty() ? -1 : e.t - stamps.back()));
-      const double got = mon.getRate();
+      const double got = monHolder->getRate();
       if (expectTimeout) {
         c.check(got == 0.0, vf::fmt("%s: rate %.17g after a timeout, expected 0", w.c_str(), got));
         mRate = 0.0; mZero = true;
